@@ -11,16 +11,16 @@ static int ev_src[2], ev_sep[2];        /* tok: (src, sep) ids at the time of th
 static char invmsg[256], invmsg2[300];
 
 /* per-class text tables; index = id (1-based); id order = text order */
-static const char *T_PAIR[] = {NULL, "1", "2"};
-static const char *T_TOKSRC[] = {NULL, "a b 'c d'", "x:y"};
-static const char *T_TOKSEP[] = {NULL, ":", ";"};
+static const char *T_PAIR[] = {NULL, "1", "2", "3"};
+static const char *T_TOKSRC[] = {NULL, "a b 'c d'", "x:y", "y;z:w"};
+static const char *T_TOKSEP[] = {NULL, ":", ";", "|"};
 /* url and regexp: text 1 is blanks only (the parent class's trim empties it) */
 static const char *T_URL[] = {NULL, "  ", "h2", "http://u:pw@h1:80/p?q"};
 static const char *T_URLHOST_PARSED[] = {NULL, "  ", "h2", "h1"};
 static const char *T_HOSTSET[] = {NULL, "zz1", "zz2", "zz3"};
 static const char *T_RE[] = {NULL, "  ", "a", "b+"};
 static const char *T_SUBJ[] = {NULL, "a", "bb", "A", "c"};
-static const int TOKCOUNT[3][3] = {{0, 0, 0}, {3, 1, 1}, {1, 2, 1}};   /* [src][sep] */
+static const int TOKCOUNT[4][4] = {{0, 0, 0, 0}, {3, 1, 1, 1}, {1, 2, 1, 1}, {1, 2, 2, 1}};   /* [src][sep] */
 
 static int id_of(const char *s, const char **tab, int n) {
     int i;
@@ -55,12 +55,12 @@ static const char *project(int k, vh_sb *out) {
     if ((ti = check_type(o))) { snprintf(invmsg2, sizeof(invmsg2), "%s:%s", k ? "b" : "a", ti); return invmsg2; }
     if (is("objpair")) {
         spif_objpair_t x = SPIF_OBJPAIR(o);
-        p = id_of(strtext(SPIF_STR(x->key)), T_PAIR, 2);
-        q = id_of(strtext(SPIF_STR(x->value)), T_PAIR, 2);
+        p = id_of(strtext(SPIF_STR(x->key)), T_PAIR, 3);
+        q = id_of(strtext(SPIF_STR(x->value)), T_PAIR, 3);
     } else if (is("tok")) {
         spif_tok_t x = (spif_tok_t) o;
-        p = id_of(strtext(spif_tok_get_src(x)), T_TOKSRC, 2);
-        q = id_of(strtext(spif_tok_get_sep(x)), T_TOKSEP, 2);
+        p = id_of(strtext(spif_tok_get_src(x)), T_TOKSRC, 3);
+        q = id_of(strtext(spif_tok_get_sep(x)), T_TOKSEP, 3);
         r = !SPIF_LIST_ISNULL(spif_tok_get_tokens(x));
         if (r) {
             long n = SPIF_LIST_COUNT(spif_tok_get_tokens(x)), i;
@@ -161,8 +161,8 @@ static const char *vh_step(const vh_step_t *st, vh_sb *ret, vh_sb *state) {
         spif_tok_t x = (spif_tok_t) S[k];
         spif_bool_t r = spif_tok_eval(x);
         if (r) {
-            ev_src[k] = id_of(strtext(spif_tok_get_src(x)), T_TOKSRC, 2);
-            ev_sep[k] = id_of(strtext(spif_tok_get_sep(x)), T_TOKSEP, 2);
+            ev_src[k] = id_of(strtext(spif_tok_get_src(x)), T_TOKSRC, 3);
+            ev_sep[k] = id_of(strtext(spif_tok_get_sep(x)), T_TOKSEP, 3);
         }
         sb_bool(ret, r);
     } else if (OP("matches")) {
